@@ -55,6 +55,17 @@ def gen(rnd, tier):
                     evs = pre + [e] + tail
                     if all(D.valid_event(evs[i]) and D.clean(evs[i], [b for x in evs[i + 1:] for b in D.encode(x)]) for i in range(len(evs))):
                         cases.append(D.stream_case(evs, tag="boundary:%s" % e[0]))
+    # far beyond the first boundaries: one unbroken run of text filling 16 (32, 64) reads - everything of it is still
+    # pending when the event arrives that straddles the end of the last full read
+    far_kinds = [("runes", [0x1F600]), ("key", 0, False), ("sgr", 35, 100, 20, False), ("x10", 32, 10, 10), ("paste", [104, 105]), ("altrune", 0xE9),
+                 ("csi", [49, 50, 59, 49, 50, 48], [], 82)]
+    for bnd in ([4096] if tier == "quick" else [4096, 8192, 16384]):
+        for e in far_kinds:
+            for off in ((-3, -2, -1) if tier == "quick" else range(-6, 1)):
+                pre = pad(rnd, bnd + off, 0)
+                evs = pre + [e, ("ctl", 13, False), ("runes", [122, 122])]
+                if all(D.valid_event(evs[i]) and D.clean(evs[i], [b for x in evs[i + 1:] for b in D.encode(x)]) for i in range(len(evs))):
+                    cases.append(D.stream_case(evs, tag="far-boundary:%s" % e[0]))
     # random long well-formed streams
     n = 90 if tier == "quick" else 4000
     for _ in range(n):
